@@ -119,24 +119,13 @@ func runC39(c *an.Ctx) {
 			_, isArr := b.X.Type().Underlying().(*types.Array)
 			return isArr && (an.AccessPathIn(saveBlock, b.Y) == rootParam || an.AccessPathIn(saveBlock, b.X) == rootParam)
 		})
-		// the emptiness test on the block's transactions, in any of its forms: len(..) != 0, > 0, == 0
-		nonEmpty := findIn(saveBlock, func(v ssa.Value) bool {
-			b, ok := v.(*ssa.BinOp)
-			if !ok || (b.Op != token.NEQ && b.Op != token.EQL && b.Op != token.GTR) {
-				return false
-			}
-			k, isC := b.X.(*ssa.Call)
-			if !isC {
-				return false
-			}
-			z, isZ := b.Y.(*ssa.Const)
-			bi, isB := k.Call.Value.(*ssa.Builtin)
-			return isB && bi.Name() == "len" && isZ && z.Value != nil && z.Value.String() == "0"
-		})
+		// the emptiness test on the block's transactions, in any of its forms: len(..) != 0, > 0, == 0, < 1, ...
+		anyLen := func(ssa.Value) bool { return true }
+		nonEmpty := findIn(saveBlock, func(v ssa.Value) bool { _, ok := lenCmpZero(v, anyLen); return ok })
 		if len(rootNE) == 1 && len(nonEmpty) == 1 {
 			g := &an.Guard{Name: "state root mismatch", FailValue: an.ATrue, MatchValue: func(v ssa.Value) bool { return v == rootNE[0] }}
 			isNonEmpty := an.ATrue
-			if nonEmpty[0].(*ssa.BinOp).Op == token.EQL {
+			if emptyWhenTrue, _ := lenCmpZero(nonEmpty[0], anyLen); emptyWhenTrue {
 				isNonEmpty = an.AFalse
 			}
 			v := an.GuardedX(c.P, saveBlock, []*an.Guard{g}, map[ssa.Value]an.Abs{nonEmpty[0]: isNonEmpty}, isSubmit, false)
@@ -303,8 +292,7 @@ func verifyHeaderRules(c *an.Ctx, setExplanation bool) {
 		}
 		// keyed by the identity of a listed key (vconfig.PubkeyID(bookkeeper)): other presence tests - the peer
 		// table lookup itself, lookups inside helpers - are not membership tests
-		kc, isCall := an.Origin(l.Index).(*ssa.Call)
-		if !isCall || kc.Call.StaticCallee() == nil || kc.Call.StaticCallee().Name() != "PubkeyID" {
+		if !isKeyID(l.Index) {
 			return false
 		}
 		memberMap = l.X
@@ -362,23 +350,23 @@ func verifyHeaderRules(c *an.Ctx, setExplanation bool) {
 	}
 	// (c) distinct member count vs C+1
 	var usedSet ssa.Value
-	quorum := &an.Guard{Name: "distinct members < C+1", FailValue: an.ATrue, MatchValue: func(v ssa.Value) bool {
-		b, ok := v.(*ssa.BinOp)
-		if !ok || b.Op != token.LSS {
-			return false
-		}
-		add, isAdd := b.Y.(*ssa.BinOp)
+	// len(set) < C+1 in any spelling (C+1 > len(set), !(len(set) >= C+1), ...)
+	isCPlus1 := func(y ssa.Value) bool {
+		add, isAdd := y.(*ssa.BinOp)
 		if !isAdd || add.Op != token.ADD {
 			return false
 		}
-		k, isK := add.Y.(*ssa.Const)
-		if !isK || k.Value == nil || k.Value.String() != "1" {
+		cv, k := add.X, add.Y
+		if _, isK := cv.(*ssa.Const); isK {
+			cv, k = k, cv
+		}
+		if kc, isK := k.(*ssa.Const); !isK || kc.Value == nil || kc.Value.String() != "1" {
 			return false
 		}
 		isC := false
-		for _, d := range an.Deref(fn, add.X) {
-			if cv, isCv := d.(*ssa.Convert); isCv {
-				d = cv.X
+		for _, d := range an.Deref(fn, cv) {
+			if conv, isCv := d.(*ssa.Convert); isCv {
+				d = conv.X
 			}
 			if f := fieldOfLoad(d); f != nil && f.Name() == "C" {
 				isC = true
@@ -387,17 +375,16 @@ func verifyHeaderRules(c *an.Ctx, setExplanation bool) {
 				break
 			}
 		}
-		if cv, isCv := add.X.(*ssa.Convert); isCv && !isC {
-			for _, d := range an.Deref(fn, cv.X) {
+		if conv, isCv := cv.(*ssa.Convert); isCv && !isC {
+			for _, d := range an.Deref(fn, conv.X) {
 				if f := fieldOfLoad(d); f != nil && f.Name() == "C" {
 					isC = true
 				}
 			}
 		}
-		if !isC {
-			return false
-		}
-		x := b.X
+		return isC
+	}
+	isSetLen := func(x ssa.Value) bool {
 		if cv, isCv := x.(*ssa.Convert); isCv {
 			x = cv.X
 		}
@@ -408,9 +395,34 @@ func verifyHeaderRules(c *an.Ctx, setExplanation bool) {
 		if bi, isB := call.Call.Value.(*ssa.Builtin); !isB || bi.Name() != "len" {
 			return false
 		}
-		usedSet = call.Call.Args[0]
+		if _, isMap := call.Call.Args[0].Type().Underlying().(*types.Map); !isMap {
+			return false
+		}
 		return true
-	}}
+	}
+	setOf := func(v ssa.Value) ssa.Value {
+		b := v.(*ssa.BinOp)
+		for _, x := range []ssa.Value{b.X, b.Y} {
+			if isSetLen(x) {
+				if cv, isCv := x.(*ssa.Convert); isCv {
+					x = cv.X
+				}
+				return x.(*ssa.Call).Call.Args[0]
+			}
+		}
+		return nil
+	}
+	quorumGuards := relGuards("distinct members < C+1", token.LSS, isSetLen, isCPlus1)
+	for _, g := range quorumGuards {
+		inner := g.MatchValue
+		g.MatchValue = func(v ssa.Value) bool {
+			if !inner(v) {
+				return false
+			}
+			usedSet = setOf(v)
+			return true
+		}
+	}
 	var vbftOnly []ssa.Value
 	for _, g := range an.InlineReach(fn) {
 		vbftOnly = append(vbftOnly, an.FindValues(g, func(v ssa.Value) bool {
@@ -426,7 +438,7 @@ func verifyHeaderRules(c *an.Ctx, setExplanation bool) {
 	for _, v := range vbftOnly {
 		extra[v] = an.ATrue
 	}
-	n, w = successReachable([]*an.Guard{quorum}, false)
+	n, w = successReachable(quorumGuards, false)
 	c.Check(n == 1 && w == "", "guard-quorum|verifyHeader|C+1", "a vbft header is accepted only if the count compared with C+1 (C of the governing chain config) is large enough", c.P.Rel(fn.Pos()), fmt.Sprintf("quorum comparisons found: %d; %s", n, w))
 	if usedSet != nil {
 		_, isMk := usedSet.(*ssa.MakeMap)
@@ -434,7 +446,7 @@ func verifyHeaderRules(c *an.Ctx, setExplanation bool) {
 		keyed := 0
 		for _, ref := range *usedSet.Referrers() {
 			if mu, ok := ref.(*ssa.MapUpdate); ok {
-				if call, isC := mu.Key.(*ssa.Call); isC && call.Call.StaticCallee() != nil && call.Call.StaticCallee().Name() == "PubkeyID" {
+				if isKeyID(mu.Key) {
 					keyed++
 				} else {
 					keyed = -100
